@@ -189,6 +189,47 @@ def ident_alias():
     raise Shape('handle_request: ident alias not found')
 
 
+def _internal_guard():
+    """handle_request: if action == IDENTREQUEST: ... elif action.startswith(<prefix>) or action == <name> ...: raise <Err>(...)
+    -> (prefix, [names], error class)"""
+    for n in walk_type(_hr(), ast.If):
+        if nows(n.test) == 'action==IDENTREQUEST':
+            if len(n.orelse) != 1 or not isinstance(n.orelse[0], ast.If):
+                raise Shape('handle_request: no elif guarding internal handler names after the *IDN? special case')
+            g = n.orelse[0]
+            if g.orelse or len(g.body) != 1 or not isinstance(g.body[0], ast.Raise) or \
+                    not (isinstance(g.body[0].exc, ast.Call) and isinstance(g.body[0].exc.func, ast.Name)):
+                raise Shape('handle_request: guard of internal names does not just raise an error')
+            terms = g.test.values if isinstance(g.test, ast.BoolOp) and isinstance(g.test.op, ast.Or) else [g.test]
+            prefixes, names = [], []
+            for t in terms:
+                if isinstance(t, ast.Call) and nows(t.func) == 'action.startswith' and len(t.args) == 1 and not t.keywords:
+                    prefixes.append(const(t.args[0]))
+                elif isinstance(t, ast.Compare) and nows(t.left) == 'action' and len(t.ops) == 1 and \
+                        isinstance(t.ops[0], ast.Eq):
+                    names.append(const(t.comparators[0]))
+                else:
+                    raise Shape('handle_request: unknown term in the guard of internal names: ' + nows(t))
+            if len(prefixes) != 1 or not all(isinstance(x, str) for x in prefixes + names):
+                raise Shape('handle_request: expected exactly one startswith prefix in the guard')
+            return prefixes[0], names, g.body[0].exc.func.id
+    raise Shape('handle_request: *IDN? special case not found')
+
+
+def internal_prefix():
+    """actions starting with this prefix never reach a handler (only *IDN? is mapped to _ident)"""
+    return 'list N', cstr(_internal_guard()[0])
+
+
+def internal_names():
+    """further actions that never reach a handler (handle_request itself)"""
+    return 'list (list N)', '[' + '; '.join(cstr(n) for n in _internal_guard()[1]) + ']'
+
+
+def internal_error_class():
+    return 'list N', cstr(_internal_guard()[2])
+
+
 def dispatch_by_getattr():
     """handler = getattr(self, f'handle_{action}', None); if handler: return handler(conn, specifier, data); raise <Err>"""
     f = _hr()
@@ -441,7 +482,7 @@ def one_send_per_result():
 
 
 FACTS = [IDENTREQUEST, IDENTREPLY, ERRORPREFIX, HELPREQUEST, HELPREPLY, request2reply, help_msgs,
-         handler_table, ident_alias, dispatch_by_getattr, unhandled_error_class, handle_request_under_lock,
+         handler_table, ident_alias, internal_prefix, internal_names, internal_error_class, dispatch_by_getattr, unhandled_error_class, handle_request_under_lock,
          error_names, EOL, get_msg_splits_first_eol, decode_split_max, decode_tail_ok, encode_shape_ok,
          MESSAGE_READ_SIZE, ingest_appends, next_message_shape_ok, sendall_in_send_lock,
          decode_error_name, generic_error_name, secop_error_uses_name, error_echo_fields, error_split_max,
